@@ -83,6 +83,8 @@ func progString(p []interp.Op) string {
 			fmt.Fprintf(&sb, "%s%d", o.K, o.N)
 		case "slot":
 			sb.WriteString("slot")
+		case "X":
+			sb.WriteString([]string{"", "attrExpr", "scriptExprOutsideLiteral", "scriptExprInsideStringLiteral"}[o.N])
 		case "call", "flush":
 			fmt.Fprintf(&sb, "%s(%s)", o.K, progString(o.A))
 		case "hcb":
@@ -315,6 +317,9 @@ func check(c *caseT, doc string, modelOK bool, seq []string, idx int, exp runExp
 				fail("ExprErrorPosition.NotTemplError", "an expression error is not wrapped in templ.Error", "")
 			} else {
 				inS := te.Line >= singleLine[0] && te.Line <= singleLine[1]
+				for _, l := range interp.OtherExprLines {
+					inS = inS || te.Line == l
+				}
 				inM := te.Line >= multiLine[0] && te.Line <= multiLine[1]
 				if filepath.Base(te.FileName) != "interp.templ" || !(inS || inM) {
 					violated = true
